@@ -71,26 +71,6 @@ Ltac step_cases H :=
 Lemma is_on_false_otog : forall s o, In o (otog s) -> is_on s = false.
 Proof. intros s o H; unfold is_on. destruct (otog s); [contradiction|]. rewrite !andb_false_r; reflexivity. Qed.
 
-(* ---------- F11: with fewer slots than first-seen objects of an indexed kind the gate never opens ---------- *)
-Definition Stuck (n : nat) (s : gst) : Prop :=
-  n <= nrun s 0 /\
-  (forall o, ph (ost s o) <> PPassed) /\
-  (forall o, ph (ost s o) <> PNew -> gated (ost s o) = true) /\
-  (forall r, won (wst s r) = true -> armed (wst s r) = true) /\
-  (exists o, In o (otog s) /\ ph (ost s o) = PQueued /\ kind (ost s o) = 0).
-
-Ltac upd_cases_s :=
-  repeat match goal with
-  | |- context [upd ?f ?x ?v ?y] =>
-      let e := fresh "e" in
-      destruct (Nat.eq_dec y x) as [e|e];
-      [ first [subst y | subst x | rewrite <- e in *]; rewrite ?upd_same in * | rewrite (upd_other f x y v e) in * ]
-  | H : context [upd ?f ?x ?v ?y] |- _ =>
-      let e := fresh "e" in
-      destruct (Nat.eq_dec y x) as [e|e];
-      [ first [subst y | subst x | rewrite <- e in *]; rewrite ?upd_same in * | rewrite (upd_other f x y v e) in * ]
-  end.
-
 Ltac upd_split f x v y :=
   let e := fresh "e" in
   destruct (Nat.eq_dec y x) as [e|e];
@@ -101,67 +81,6 @@ Ltac upd_cases :=
   | |- context [upd ?f ?x ?v ?y] => lazymatch y with context [upd] => fail | _ => upd_split f x v y end
   | H : context [upd ?f ?x ?v ?y] |- _ => lazymatch y with context [upd] => fail | _ => upd_split f x v y end
   end; try subst.
-
-Ltac stuck_auto ob Hoff Hg :=
-  split; [try assumption; try (upd_cases_s; lia)|];
-  split; [intro o'; upd_cases_s; simpl; try congruence; auto|];
-  split; [intro o'; upd_cases_s; simpl; try congruence; try (rewrite Hoff; reflexivity); try (intros _; apply Hg; congruence); auto|];
-  split; [intro r'; upd_cases_s; simpl; try congruence; try (rewrite Hoff; reflexivity); auto|];
-  exists ob; upd_cases_s; simpl; try congruence; auto;
-  try (split; [first [right; assumption | apply in_remove_nat; split; [assumption | congruence] | assumption]|]; auto).
-
-Lemma stuck_step : forall n s l s', Stuck n s -> gstep (Some n) s l = Some s' -> Stuck n s'.
-Proof.
-  intros n s l s' (Hn & Hp & Hg & Ha & (ob & Hin & Hq & Hk)) H.
-  assert (Hoff : is_on s = false) by (eapply is_on_false_otog; eauto).
-  step_cases H; unfold Stuck, touch, set_o, set_w; simpl.
-  all: try solve [exfalso;
-    first [ match goal with H1 : won (wst _ ?r) = true, H2 : armed (wst _ ?r) = false |- _ => rewrite (Ha r H1) in H2; discriminate end
-          | match goal with H1 : ph (ost _ ?o) = PPassed |- _ => apply (Hp o H1) end
-          | match goal with H1 : ph (ost _ ?o) = PWaiting, H2 : gated (ost _ ?o) = false |- _ =>
-              rewrite Hg in H2 by congruence; discriminate end
-          | congruence ]].
-  all: stuck_auto ob Hoff Hg.
-  all: exfalso; match goal with H2 : nrun _ (kind _) < _ |- _ => rewrite Hk in H2; lia end.
-Qed.
-
-Lemma stuck_run : forall n tr s s', Stuck n s -> grun (Some n) s tr = Some s' -> Stuck n s'.
-Proof.
-  intros n tr; induction tr as [|l tr IH]; intros s s' HS H; simpl in H.
-  - injection H as <-; exact HS.
-  - destruct (gstep (Some n) s l) as [s1|] eqn:E; [|discriminate]. eapply IH; [eapply stuck_step; eauto | exact H].
-Qed.
-
-(* the trace recorded from the real watcher/worker/processor with worker_limit=2 and three pre-existing objects *)
-Definition f11_trace : list label :=
-  [MakeBlocker; MakeRes 0 true; DropBlocker;
-   SeenCheck 0 0 false; SeenMake 0 0; Spawn 0 0 true true; Start 0; Indexed 0;
-   SeenCheck 0 1 false; SeenMake 0 1; Spawn 0 1 true true; Start 1; Indexed 1;
-   SeenCheck 0 2 false; SeenMake 0 2; Spawn 0 2 true true; Listed 0].
-Definition f11_state : gst := match grun (Some 2) ginit f11_trace with Some s => s | None => ginit end.
-
-Lemma f11_reached : grun (Some 2) ginit f11_trace = Some f11_state.
-Proof. vm_compute. reflexivity. Qed.
-
-Lemma f11_stuck : Stuck 2 f11_state.
-Proof.
-  unfold Stuck. split; [vm_compute; lia|].
-  split; [intro o; do 3 (destruct o as [|o]; [vm_compute; discriminate|]); vm_compute; discriminate|].
-  split; [intro o; do 3 (destruct o as [|o]; [vm_compute; reflexivity|]); vm_compute; intro H; exfalso; apply H; reflexivity|].
-  split; [intro r; destruct r as [|r]; vm_compute; [reflexivity | discriminate]|].
-  exists 2. vm_compute. auto.
-Qed.
-
-Theorem gate_limited_deadlock :
-  exists s0, grun (Some 2) ginit f11_trace = Some s0 /\
-    blocker s0 = false /\ rtog s0 = [] /\ nseen s0 0 = 3 /\          (* all listings finished; three first-seen objects *)
-    forall tr s, grun (Some 2) s0 tr = Some s ->
-      is_on s = false /\ forall o, ph (ost s o) <> PPassed.           (* ... and no handler-side start, ever *)
-Proof.
-  exists f11_state. split; [exact f11_reached|]. split; [reflexivity|]. split; [reflexivity|]. split; [reflexivity|].
-  intros tr s H. pose proof (stuck_run 2 tr f11_state s f11_stuck H) as (_ & Hp & _ & _ & (o & Hin & _)).
-  split; [eapply is_on_false_otog; eauto | exact Hp].
-Qed.
 
 (* ---------- the invariant of every reachable state, any worker limit: the resource-kind half of the gate ---------- *)
 Record KInv (s : gst) : Prop := mkKInv {
@@ -254,16 +173,4 @@ Proof.
   intros lim tr s r Hr Hw Hx Hl. destruct (kinv_run lim tr ginit s kinv_init Hr).
   eapply is_on_false_rtog; eauto.
 Qed.
-
-(* with enough slots (or no limit) the very same arrivals open the gate: the recorded traces, replayed *)
-Definition f11_trace_tail : list label := [Start 2; Indexed 2; Pass 2; Pass 1; Pass 0].
-Example gate_opens_with_three_slots :
-  exists s, grun (Some 3) ginit (f11_trace ++ f11_trace_tail) = Some s /\ is_on s = true /\ passed_count s [0; 1; 2] = 3.
-Proof. eexists; split; [vm_compute; reflexivity | split; vm_compute; reflexivity]. Qed.
-Example gate_opens_without_limit :
-  exists s, grun None ginit (f11_trace ++ f11_trace_tail) = Some s /\ is_on s = true /\ passed_count s [0; 1; 2] = 3.
-Proof. eexists; split; [vm_compute; reflexivity | split; vm_compute; reflexivity]. Qed.
-Example gate_start_refused_with_two_slots :
-  exists s, grun (Some 2) ginit f11_trace = Some s /\ gstep (Some 2) s (Start 2) = None /\ gstep (Some 3) s (Start 2) <> None.
-Proof. eexists; split; [vm_compute; reflexivity | split; vm_compute; [reflexivity | discriminate]]. Qed.
 
